@@ -5,7 +5,7 @@ stdin: {"dbdir": path, "cases": [case, ...]}      stdout: "\n@@JSON@@" + {"resul
 Exceptions are small integers (kinds); kind k is raised as an instance of class K_k, which derives from the marker
 classes A_k and R_k that the `allowed_exceptions` / `retry_exceptions` lists name (so that one kind can be in both lists
 without tripping the constructor's "same exception in both lists" check), and carries `should_retry = True` if k is in
-SHOULD_RETRY.  A poisoned write is an object whose before_insert hook raises (kind `cfail`) when commit() flushes it.
+SHOULD_RETRY.  Kinds in BASE_ONLY derive from BaseException only; the `try` node of a program is `except Exception: pass`.  A poisoned write is an object whose before_insert hook raises (kind `cfail`) when commit() flushes it.
 
 Observation of one case: the trace of [run i npend depth] / [commit n] / [commitfail n] / [rollback n] events (commit and
 rollback are the module-level functions of pony.orm.core, wrapped from the outside), the committed markers afterwards
@@ -13,8 +13,9 @@ rollback are the module-level functions of pony.orm.core, wrapped from the outsi
 """
 import json, os, sys, types
 
-NK = 6
+NK = 9
 SHOULD_RETRY = (4, 5)
+BASE_ONLY = (6, 7, 8)      # kinds derived from BaseException, not from Exception (like SystemExit / KeyboardInterrupt)
 MUST_COMMIT = 100
 
 
@@ -29,8 +30,9 @@ def main():
     LOG = []
     CF = [0]
 
-    A = [type('A_%d' % k, (Exception,), {}) for k in range(NK)]
-    R = [type('R_%d' % k, (Exception,), {}) for k in range(NK)]
+    root = lambda k: BaseException if k in BASE_ONLY else Exception
+    A = [type('A_%d' % k, (root(k),), {}) for k in range(NK)]
+    R = [type('R_%d' % k, (root(k),), {}) for k in range(NK)]
     K = [type('K_%d' % k, (A[k], R[k]), {'should_retry': True} if k in SHOULD_RETRY else {}) for k in range(NK)]
 
     def kind_of(e):
@@ -101,7 +103,9 @@ def main():
         del LOG[:]
         exc = -1
         try: thunk()
-        except Exception as e: exc = (kind_fn or kind_of)(e)
+        except BaseException as e:
+            exc = (kind_fn or kind_of)(e)
+            if not isinstance(e, Exception) and not isinstance(exc, int): raise      # a real KeyboardInterrupt / SystemExit of the harness
         depth_after = core.local.db_context_counter
         pending_after = npending()
         session_after = core.local.db_session is not None
@@ -133,7 +137,7 @@ def main():
                 try:
                     for f in self.before: f()
                     view()
-                except Exception as e:
+                except BaseException as e:      # Flask.wsgi_app: `except Exception` and a bare `except:` both record the error for the teardown
                     err = e
                 for f in reversed(self.teardown): f(err)
                 if err is not None: raise err
@@ -153,7 +157,8 @@ def main():
         sys.modules.pop('pony.orm.integration.bottle_plugin', None)
         from pony.orm.integration import bottle_plugin
         class TE(core.TransactionError): pass
-        excs = [Exception, HTTPResponse, HTTPError, TE]
+        class Abort(BaseException): pass
+        excs = [Exception, HTTPResponse, HTTPError, TE, Abort]
         return bottle_plugin.PonyPlugin(), excs
 
     flask_app = bottle = None
@@ -196,7 +201,7 @@ def main():
                     except StopIteration:
                         state['finished'] = True
                         return
-                    except Exception:
+                    except BaseException:
                         state['finished'] = True
                         raise
                 it.close()      # the consumer drops the suspended generator (explicitly, so that it does not depend on the GC)
